@@ -59,6 +59,9 @@ func (c08Engine) Generate(seed uint64, tier string) *simrun.Case {
 			c.Ops = append(c.Ops, simrun.Op{C: wi, K: k, A: []int64{int64(r.Intn(2)), int64(1 + r.Intn(5))}})
 		}
 	}
+	// swarm: in two thirds of the runs every mutex release is followed by a scheduling point (a goroutine can lose
+	// the processor right after an Unlock, before its next statement)
+	c.Knobs["unlock_yield"] = []int64{0, 1, 1}[r.Intn(3)]
 	return c
 }
 
